@@ -332,6 +332,14 @@ class Escapes:
                     break
             t = T.of(fi, e)
             v = may_be_big_int(t)
+            if t == "Exception" and isinstance(e, ast.Name):
+                # str(err) of a caught KeyError/LookupError is the repr of the key, a data value
+                for a in mod.ancestors(at):
+                    if isinstance(a, ast.ExceptHandler) and a.name == e.id:
+                        classes = self.handler_classes(mod, a)
+                        if any(issubclass(KeyError, c_) for c_ in classes):
+                            v = True
+                        break
             if v and t is not None and not in_filter and "object" not in t and "Any" not in t:
                 v = False  # engine integers (positions, counters, lengths) outside the filter functions
             txt = ast.unparse(e)[:40]
@@ -347,6 +355,16 @@ class Escapes:
                     big(n.args[0], f"{q.split('.')[-1]}()", n)
                 elif q == "format" and n.args:
                     big(n.args[0], "format()", n)
+                elif q == "len" and len(n.args) == 1:
+                    # len() of a range longer than sys.maxsize raises OverflowError; ranges come from `(a..b)` literals
+                    t = T.of(fi, n.args[0])
+                    td = T.declared(fi, n.args[0])
+                    narrowed_safe = t is not None and all(p.strip().split("[")[0] in ("str", "list", "tuple", "dict", "set", "frozenset", "deque", "bytes", "Markup", "Mapping", "Dict", "List", "Tuple", "MutableMapping", "None") for p in t.split("|"))
+                    data = td is not None and (("object" in td) or ("Any" in td) or ("range" in td))
+                    if data and not narrowed_safe:
+                        out.append((n, OverflowError, f"len({ast.unparse(n.args[0])[:30]})"))
+                    elif t is None:
+                        self.undeclared.append(f"{fi.file} {fi.qualname}: len() of {ast.unparse(n.args[0])[:30]}")
                 elif isinstance(n.func, ast.Attribute) and n.func.attr == "format" and T.of(fi, n.func.value) == "str":
                     for a in list(n.args) + [k.value for k in n.keywords]:
                         big(a, ".format()", n)
